@@ -369,6 +369,8 @@ def run(repo, rep):
     rep.clause("C08-u", "per-group slices of per-channel quantisation vectors are taken under the dimensionality test of the member they slice (grouped convolutions pack their own channels' scales)")
     rep.clause("C08-v", "a weight buffer is sized from the encoded tensor it receives (size argument of Scheduler.buffer_tensor derives from its source tensor): the recorded double-buffer sizes bound every slice that occupies the buffer")
     rule_round10(repo, rep)
+    rep.clause("C08-x", "taps inserted into a weight tensor by a rewrite are the tensor's zero point (weight 0 after the zero-point correction): a rebuilt `weights.values` array is created by np.full(.., zero point), not np.zeros")
+    rule_inserted_weight_taps(repo, rep)
     rep.clause("C08-w", "the weight section decodes to the weights that went in: create_palette executed on five histograms - direct offset within its 5-bit field, PALBITS covers every code [rule shared with C07-s]")
     from . import c07 as _c07
 
@@ -731,3 +733,29 @@ def rule_round10(repo, rep):
                       f"also derives from {extra}: the buffer is sized from another tensor - a depth slice of `{src}` larger than that does not fit the buffer the DMA fills (double_buffer_sizes no longer bound the slice)")
     if n < 3:
         raise AnalysisError(f"Scheduler.buffer_tensor: {n} calls found")
+
+
+def rule_inserted_weight_taps(repo, rep):
+    """(x) a weight enters the stream as (code - zero point): taps that a rewrite *inserts* into a weight tensor (a kernel made sparse for a
+    dilation above 2, a filter padded for a folded stride) must be the tensor's zero point, i.e. weight 0. An array created by np.zeros that
+    becomes `<op>.weights.values` is therefore reported unless it was created by np.full with the zero point; paddings of weight tensors
+    (np.pad) take the zero point as constant."""
+    go = repo.mod("tflite_graph_optimiser")
+    n = 0
+    for q, fn in go.functions.items():
+        zs = {}
+        for st in ast.walk(fn):
+            if isinstance(st, ast.Assign) and isinstance(st.targets[0], ast.Name) and isinstance(st.value, ast.Call) and (call_name(st.value) or "") in ("np.zeros", "numpy.zeros", "np.full", "numpy.full", "np.zeros_like", "np.full_like"):
+                zs[st.targets[0].id] = st.value
+        for st in ast.walk(fn):
+            if not (isinstance(st, ast.Assign) and str(norm(st.targets[0])).endswith("weights.values") and isinstance(st.value, ast.Name) and st.value.id in zs):
+                continue
+            n += 1
+            c = zs[st.value.id]
+            cn = call_name(c) or ""
+            ok = cn.endswith(("full", "full_like")) and any("zero_point" in str(norm(a)) for a in list(c.args) + [k.value for k in c.keywords]) or (
+                cn.endswith(("full", "full_like")) and any(isinstance(a, ast.Name) and any(isinstance(s2, ast.Assign) and str(norm(s2.targets[0])) == a.id and "zero_point" in str(norm(s2.value)) for s2 in ast.walk(fn)) for a in c.args))
+            rep.check(ok, "C08-x", f"ethosu/vela/tflite_graph_optimiser.py:{q}", f"`{st.value.id} = {str(norm(c))[:60]}` fills the inserted taps with the weight zero point",
+                      "the new kernel is created with zeros: with uint8 weights (zero point 128) every inserted tap is encoded as weight -128 instead of 0 (2048 of 3584 encoded weights differ from the equivalent dilated kernel)")
+    if n < 1:
+        raise AnalysisError("weight arrays rebuilt by the graph optimiser: none found")
